@@ -11,14 +11,14 @@ pub open spec fn is_opt_text(d: Data, o: Option<String>) -> bool {
     }
 }
 
-/// the map `m` binds a key spelled `name` to a handle created with the string `t`
+/// the map `m` binds a key spelled `name` to a READ-ONLY handle created with the string `t`
 pub open spec fn field_text(m: Map<String, DataArc>, name: Seq<char>, t: Seq<char>) -> bool {
-    exists|k: String| k@ == name && #[trigger] m.contains_key(k) && is_text(m[k].init(), t)
+    exists|k: String| k@ == name && #[trigger] m.contains_key(k) && is_text(m[k].init(), t) && m[k].readonly()
 }
 
-/// the map `m` binds a key spelled `name` to a handle created with the optional text `o`
+/// the map `m` binds a key spelled `name` to a READ-ONLY handle created with the optional text `o`
 pub open spec fn field_opt(m: Map<String, DataArc>, name: Seq<char>, o: Option<String>) -> bool {
-    exists|k: String| k@ == name && #[trigger] m.contains_key(k) && is_opt_text(m[k].init(), o)
+    exists|k: String| k@ == name && #[trigger] m.contains_key(k) && is_opt_text(m[k].init(), o) && m[k].readonly()
 }
 
 /// the text of an event type (EventType::name)
@@ -49,6 +49,7 @@ pub open spec fn event_fields(d: Data, event: Event) -> bool {
 pub proof fn lemma_text_insert_same(m: Map<String, DataArc>, k: String, v: DataArc, t: Seq<char>)
     requires
         is_text(v.init(), t),
+        v.readonly(),
     ensures
         field_text(m.insert(k, v), k@, t),
 {
@@ -58,6 +59,7 @@ pub proof fn lemma_text_insert_same(m: Map<String, DataArc>, k: String, v: DataA
 pub proof fn lemma_opt_insert_same(m: Map<String, DataArc>, k: String, v: DataArc, o: Option<String>)
     requires
         is_opt_text(v.init(), o),
+        v.readonly(),
     ensures
         field_opt(m.insert(k, v), k@, o),
 {
@@ -71,7 +73,7 @@ pub proof fn lemma_text_insert_other(m: Map<String, DataArc>, k: String, v: Data
     ensures
         field_text(m.insert(k, v), name, t),
 {
-    let k0 = choose|k0: String| k0@ == name && #[trigger] m.contains_key(k0) && is_text(m[k0].init(), t);
+    let k0 = choose|k0: String| k0@ == name && #[trigger] m.contains_key(k0) && is_text(m[k0].init(), t) && m[k0].readonly();
     assert(m.insert(k, v).contains_key(k0));
 }
 
@@ -82,7 +84,7 @@ pub proof fn lemma_opt_insert_other(m: Map<String, DataArc>, k: String, v: DataA
     ensures
         field_opt(m.insert(k, v), name, o),
 {
-    let k0 = choose|k0: String| k0@ == name && #[trigger] m.contains_key(k0) && is_opt_text(m[k0].init(), o);
+    let k0 = choose|k0: String| k0@ == name && #[trigger] m.contains_key(k0) && is_opt_text(m[k0].init(), o) && m[k0].readonly();
     assert(m.insert(k, v).contains_key(k0));
 }
 /// the seven field names are pairwise different texts
